@@ -223,7 +223,25 @@ Definition prop_list (args : list bytes) : bytes :=
       | None => check (bytes_eqb obs err) "listed an invalid text" okb
       | Some v =>
           if bytes_eqb obs err then
-            check (negb (strictly_signable v)) "refused a well-formed object" okb
+            (* an error is in order only when signatures, or the entry of the named entity, is
+               neither an object nor null; other entities' entries must not matter (F61) *)
+            check (negb (match v with
+                         | JObj m =>
+                             match assoc_last k_signatures m with
+                             | None => true
+                             | Some JNull => true
+                             | Some (JObj sm) =>
+                                 match assoc_last name sm with
+                                 | None => true
+                                 | Some JNull => true
+                                 | Some (JObj _) => true
+                                 | Some _ => false
+                                 end
+                             | Some _ => false
+                             end
+                         | JNull => true
+                         | _ => false
+                         end)) "refused although the entry asked about is readable" okb
           else
             match parse_json obs with
             | Some (JArr l) =>
